@@ -34,6 +34,7 @@ ASSUMPTIONS = [
     "summation order inside a bin is unspecified: sums compared with tolerance 64 ulp x sum|v|",
     "a float32 value layer may be accumulated in float32 (judged at 64 float32 ulps); coordinates are float64 or integers (single-precision coordinates were tried and withdrawn, DESIGN 9.15)",
     "the large-input runs of the anchor are direct executions of the compiled kernel (one numba thread; one stress run with all threads whose record is coarse on purpose)",
+    "where a layer holds a NaN for a point, that layer"s value in that point"s bin is not judged (NaN and a NaN-skipping sum are both accepted); every other layer is judged as usual",
 ]
 REAL_STUB = {
     "real": ["osyris.histogram2d front-end", "parse_layer / Layer", "Array/Vector", "unit handling", "hist2d kernel source (executed by CPython)"],
@@ -147,6 +148,10 @@ def generate(rng, tier):
             l["values"] = [float(np.float32(v)) for v in l["values"]]
         elif l["dtype"] in ("i8", "i4"):
             l["values"] = [float(int(round(v))) for v in l["values"]]
+        if l["dtype"] in ("f8", "f4") and n and rng.random() < 0.15:
+            # a quantity that is undefined for some points (NaN): its own bins are not judged there, every other layer is
+            for i in rng.sample(range(n), min(n, rng.choice([1, 1, 2, 3]))):
+                l["values"][i] = float("nan")
     # several layers may show the very same Array object with different operations (image + contours of one quantity)
     for k in range(1, len(layers)):
         if rng.random() < 0.3:
@@ -637,6 +642,8 @@ def execute(case, stats):
     lay_eps = [float(np.finfo(np.float32).eps) if (nl and case["layers"][k].get("dtype") == "f4") else float(np.finfo(float).eps) for k in range(len(lay_vals))]
     for l in case["layers"]:
         stats.inc("swarm.layer_dtype=" + l.get("dtype", "f8"))
+    if any(np.isnan(v).any() for v in lay_vals) and len(lay_vals) > 1:
+        stats.inc("probe.nan_value_in_one_layer_next_to_other_layers")
     if len({l.get("dtype", "f8") for l in case["layers"]}) > 1:
         stats.inc("probe.layers_of_different_dtypes_in_one_call")
     sums = np.zeros((len(lay_vals), ny, nx))
@@ -689,7 +696,7 @@ def execute(case, stats):
                     tol = tol / np.maximum(lower, 1)
             elif lay_ops[k] != "sum":
                 raise HarnessError("generator produced an unknown operation")
-            bad = ok_bins & ~(np.abs(vals - exp) <= tol)
+            bad = ok_bins & ~np.isnan(exp) & ~(np.abs(vals - exp) <= tol)
             if np.any(bad):
                 b = tuple(np.argwhere(bad)[0])
                 V("values", label, {"effect": lay_ops[k], "when": label}, {"layer": k, "bin": list(b), "got": float(vals[b]), "want": float(exp[b])})
@@ -720,7 +727,7 @@ def execute(case, stats):
                 with np.errstate(all="ignore"):
                     exp = np.where(lower > 0, exp / np.maximum(lower, 1), 0.0)
                     tol = tol / np.maximum(lower, 1)
-            bad = ok_bins & ~(np.abs(vals - exp) <= tol)
+            bad = ok_bins & ~np.isnan(exp) & ~(np.abs(vals - exp) <= tol)
             if np.any(bad):
                 b = tuple(np.argwhere(bad)[0])
                 V("values", label, {"effect": lay_ops[k], "when": label}, {"layer": k, "bin": list(b), "got": float(vals[b]), "want": float(exp[b])})
